@@ -54,6 +54,7 @@ type tierCfg struct {
 	Solver   string         `json:"solver"`
 	Timeout  int            `json:"query_timeout_ms"`
 	MapOrder bool           `json:"map_order"`
+	Solver2  string         `json:"solver2"`
 	Workers  int            `json:"workers"`
 }
 
@@ -217,6 +218,18 @@ func main() {
 			}
 		}
 		cfg := sym.Config{Unwind: tc.Unwind, MaxPaths: tc.MaxPaths, MaxSteps: tc.MaxSteps, MergeLimit: tc.Merge, Listed: listed, Params: params, MapOrder: tc.MapOrder}
+		// thorough tier: every discharged assertion obligation is re-discharged by a second back end
+		// (z3 4.8.12 unless the registry names another); a timeout there is recorded, a model is a failure
+		cfg.Solver2 = tc.Solver2
+		if *tier == "thorough" && cfg.Solver2 == "" {
+			cfg.Solver2 = "z3"
+		}
+		if s2 := os.Getenv("VERIF_SOLVER2"); s2 != "" {
+			cfg.Solver2 = s2
+		}
+		if cfg.Solver2 == "none" {
+			cfg.Solver2 = ""
+		}
 		secs := tc.Seconds
 		if secs == 0 {
 			secs = 600
@@ -633,6 +646,7 @@ func (e *evidence) addHarness(h harnessReg, params map[string]int, r *sym.Harnes
 		"merges": st.Merges, "forks": st.Forks, "instructions": st.Steps, "wall_s": r.Wall.Seconds(),
 		"solver_s": r.SolverTime.Seconds(), "assert_labels_reached": st.AssertLabels, "covers": st.Covers,
 		"shapes": st.Shapes, "go_statements_recorded": st.GoStmts, "init_notes": len(st.InitFailed),
+		"second_solver_rechecked": st.CrossChecked, "second_solver_unknown": st.CrossUnknown, "second_solver_disagreements": st.CrossDisagree,
 		"violation_candidates": len(r.Viols), "inconclusive": r.Inconclusive,
 	}
 	c.Harnesses = append(c.Harnesses, hm)
